@@ -906,9 +906,15 @@ func isDanglingFirst(w *world.World, bi int) bool {
 	return bi == 0 && w.Params.DanglingFirstParent && b.Slot > 0 && b.ParentSlot == b.Slot-1 && b.ParentSlot/world.SlotsPerEpoch == w.Epoch && (b.ParentSlot != 0 || b.Slot == 1)
 }
 
+// afterUnaryReturn stands for the transport: grpc-go serialises a unary response after the handler
+// has returned, and the serving goroutine can be descheduled in between while other requests are
+// handled. Under the simulator this is a few scheduling points; outside it is nothing.
+var afterUnaryReturn = func() {}
+
 func checkBlockGRPC(t reporter, multi *MultiEpoch, w *world.World, bi int, b *world.Block) {
 	t.Helper()
 	resp, err := multi.GetBlock(context.Background(), &old_faithful_grpc.BlockRequest{Slot: b.Slot})
+	afterUnaryReturn()
 	if isDanglingFirst(w, bi) {
 		// documented limitation: the parent is inside the epoch but not in the CAR
 		worldSelfCoverage["dangling-first-parent"]++
@@ -1204,6 +1210,7 @@ func checkTxGRPC(t reporter, multi *MultiEpoch, tx *world.Tx) {
 	t.Helper()
 	sig := tx.Sig()
 	resp, err := multi.GetTransaction(context.Background(), &old_faithful_grpc.TransactionRequest{Signature: sig[:]})
+	afterUnaryReturn()
 	if err != nil {
 		t.Fatalf("grpc GetTransaction(%s): %v", sig, err)
 	}
